@@ -321,6 +321,9 @@ def run_property(prop, modname, tier, level, title='', record_baseline=False):  
             crashes.append((nr['name'], f"native check exit {nr['exit']}: "
                             + nr['stderr_tail'][-1500:]))
 
+    bounded_ok = sorted(set(bounded_ok))
+    proved = sorted(set(proved) - set(bounded_ok))
+
     # obligations that used to be discharged and are gone now
     for b in sorted(base - all_names):
         undecided.append(('baseline', f'obligation {b} no longer generated'))
@@ -349,11 +352,21 @@ def run_property(prop, modname, tier, level, title='', record_baseline=False):  
     exit_code = EXIT_HELD
     reported = []
     spurious = []
+    seen_names = set()
+    native_names = {nr['name'] for nr in native_res}
     for (name, model, detail, cname, smt2, sig) in real_violations:
+        if name in seen_names:
+            continue
+        seen_names.add(name)
         c = by_contract.get(cname)
         rp = os.path.join(VERIF, 'replays', f'{prop}_{_san(name)}.json')
         confirmed = None
         replay_info = None
+        if cname in native_names:
+            # found by running the real code on this very input
+            confirmed = True
+            replay_info = {'native_check': cname, 'failing_input': model,
+                           'what': detail}
         if c is not None and c.replay is not None and model is not None:
             try:
                 replay_info = c.replay(name, model, detail)
